@@ -209,14 +209,16 @@ std::vector<Workload> build()
         std::vector<Bytes> seeds;
         ref::TecmpHdr h;
         h.device = 0x43; h.ifid = 0x01020304; h.ts = 0x1122334455667788ull; h.msgType = ref::TM_DATA; h.dataType = ref::TD_CAN;
+        // every trailer length 0..3 (a truncated CRC trailer leaves part of the CRC to whatever the converter makes up)
         for (int len : {0, 1, 8})
-            for (int crc : {0, 2, 3})
+            for (int crc : {0, 1, 2, 3})
                 seeds.push_back(ref::tecmpFrame(h, ref::tecmpCanPayload(0x123, (uint8_t) len, pt((size_t) len, 1), crc)));
         h.dataType = ref::TD_CANFD;
-        for (int len : {12, 64})
-            seeds.push_back(ref::tecmpFrame(h, ref::tecmpCanPayload(0x321, (uint8_t) len, pt((size_t) len, 2), 3)));
+        for (int len : {9, 12, 64})
+            for (int crc : {0, 1, 2, 3})
+                seeds.push_back(ref::tecmpFrame(h, ref::tecmpCanPayload(0x321, (uint8_t) len, pt((size_t) len, 2), crc)));
         h.dataType = ref::TD_LIN;
-        for (int len : {0, 3, 8})
+        for (int len : {0, 1, 3, 8})
             for (int cs = 0; cs < 2; ++cs)
                 seeds.push_back(ref::tecmpFrame(h, ref::tecmpLinPayload(0x7F, (uint8_t) len, pt((size_t) len, 3), cs != 0, 0x5A)));
         h.dataType = 0; h.msgType = ref::TM_CM_STATUS;
